@@ -107,7 +107,11 @@ EC_POINT* OSSL::byteString2pt(const ByteString& byteString, const EC_GROUP* grp)
 	size_t len = raw.size();
 	if (len == 0) return NULL;
 
+	// The group is missing when the EC parameters of the key could not be decoded
+	if (grp == NULL) return NULL;
+
 	EC_POINT* pt = EC_POINT_new(grp);
+	if (pt == NULL) return NULL;
 	if (!EC_POINT_oct2point(grp, pt, &raw[0], len, NULL))
 	{
 		ERROR_MSG("EC_POINT_oct2point failed: %s", ERR_error_string(ERR_get_error(), NULL));
